@@ -210,7 +210,7 @@ def check_long(case):
 def unconvertible_cases(tier):
     for version in (2.0, 1.0):
         for jc in (True, False):
-            for m in ("cyclic", "deepret", "badkeys", "badser"):
+            for m in ("cyclic", "deepret", "badkeys", "badser", "cfgfault", "retfault", "sharedfault"):
                 if m == "badser" and not jc:
                     continue
                 for j in ("2.0", ABSENT):
@@ -431,7 +431,7 @@ META = {
     "stateless model checking of two concurrent dispatcher threads at source-line granularity; enumeration of mutation sequences on Config.copy()",
     "rule": "history: every sequence of <=3 (thorough <=4) requests over a 17-request menu (1.0/2.0 calls, notifications, failing, unknown, bad arity, mixed "
     "and 1.0 batches, invalid objects of both versions, unparsable text, methods returning a Fault object, requests carrying translated beans) x 6 server configurations (2.0, 1.0, translation off, inline notification pool, "
-    "shared DEFAULT config); unconvertible-results: methods returning a cyclic, a 100000-deep, a tuple-keyed result or a bean whose serialisation method raises, alone and in a "
+    "shared DEFAULT config); unconvertible-results: methods returning a cyclic, a 100000-deep, a tuple-keyed result, a bean whose serialisation method raises, or a Fault built with the default / the server's own Config / shared between calls, alone and in a "
     "batch, 1.0 and 2.0 form, server 1.0/2.0, translation on/off; long-history: each menu request after 130 repetitions of each menu request, after 1100 (thorough up to 70000) repetitions of 4 of them, "
     "after 40 cycles through the menu and after large batches / large requests, on 3 configurations (the N-th reply equals a fresh dispatcher's); config-copy: every sequence of <=2 mutations from a 16-mutation menu on the copy and on the original from 5 start states (default, populated tables, 1.0 with options off, every option falsy, every option customised); "
     "concurrent: 8 request pairs (thorough + 2 triples) x 3 configurations, every schedule up to the completed preemption level at line granularity of "
